@@ -79,12 +79,15 @@ def check(run: Run) -> None:
     run.check(ok_i, "C06.R1", rg, inner_l[0] if inner_l else rg.node, "if-clauses are applied left to right", "the if-clauses of a comprehension are not applied in source order")
 
     # ---------------- R3
-    raises = [n for n in own_nodes(rg) if isinstance(n, ast.Raise)]
+    from ..lib import call_events, call_sites_of, unit
+
+    raises_u = [(g_, n) for g_ in unit(m, rg) for n in own_nodes(g_) if isinstance(n, ast.Raise)]
+    raises = [n for _g, n in raises_u]
     kinds = set()
-    for r in raises:
+    for g_, r in raises_u:
         exc = r.exc.func if isinstance(r.exc, ast.Call) else r.exc
-        run.check(isinstance(exc, ast.Name) and exc.id == "ValueError", "C06.R3", rg, r, "refusal is ValueError", f"refusal raises {ast.unparse(exc)}")
-        fx = Facts(fa, r)
+        run.check(isinstance(exc, ast.Name) and exc.id == "ValueError", "C06.R3", g_, r, "refusal is ValueError", f"refusal raises {ast.unparse(exc)}")
+        fx = Facts(ctx.analysis(g_), r)
         for a, pol in fx.atoms:
             txt = ast.unparse(a)
             if "isinstance" in txt and "ast.Name" in txt and not pol:
@@ -93,10 +96,18 @@ def check(run: Run) -> None:
                 kinds.add("async")
     run.check("target" in kinds, "C06.R3", rg, rg.node, "non-Name comprehension target raises ValueError", "a tuple (non-Name) comprehension target is not refused")
     run.check("async" in kinds, "C06.R3", rg, rg.node, "async comprehension raises ValueError", "an async comprehension clause is not refused")
-    builds = [c for c in calls_in(rg) if isinstance(c.func, ast.Attribute) and isinstance(c.func.value, ast.Name) and c.func.value.id == "ast" and c.func.attr == "Call"]
+    builds = [e for e in call_events(ctx, rg, lambda nm: nm == "Call") if isinstance(e.call.func, ast.Attribute) and isinstance(e.call.func.value, ast.Name) and e.call.func.value.id == "ast"]
+    run.floor("C06.R3", len(builds), 1, "Where/Select call constructions in resolve_generator")
     for b in builds:
-        ok = all(_raise_precedes(fa, r, b) for r in raises)
-        run.check(ok, "C06.R3", rg, stmt_of(b), "refusals precede construction in the clause", "a Where/Select call is built before the clause's target / async checks")
+        ok = True
+        for g_, r in raises_u:
+            if g_ is rg:
+                ok = ok and _raise_precedes(fa, r, b.site)
+            else:
+                # the refusal sits in a helper: its call in resolve_generator must come first
+                sites_ = [call for c_, call, _sk in call_sites_of(m, g_) if c_ is rg]
+                ok = ok and bool(sites_) and all(fa.cfg.dominates(fa.cfg.node_of(c_), b.site) and fa.cfg.node_of(c_) is not b.site for c_ in sites_)
+        run.check(ok, "C06.R3", rg, stmt_of(b.call) if b.owner is rg else rg.node, "refusals precede construction in the clause", "a Where/Select call is built before the clause's target / async checks")
 
     # ---------------- R2
     terms = {}
@@ -244,5 +255,5 @@ def _raise_precedes(fa, r: ast.Raise, b: ast.Call) -> bool:
 
     for a in ancestors(r):
         if isinstance(a, ast.If):
-            return fa.cfg.dominates(fa.cfg.node_of(a), fa.cfg.node_of(b))
+            return fa.cfg.dominates(fa.cfg.node_of(a), b if not isinstance(b, ast.AST) else fa.cfg.node_of(b))
     return False
